@@ -31,7 +31,7 @@ pub struct Sink22 {
 }
 
 /// per-item operators (and plumbing) that get no tap of their own
-pub const PURE: &[&str] = &["map", "filter", "flat_map", "filter_map", "inspect", "tee", "source_stream", "for_each", "union", "tap"];
+pub const PURE: &[&str] = &["map", "filter", "flat_map", "filter_map", "inspect", "intap", "tee", "source_stream", "for_each", "union", "tap"];
 
 pub fn base_kind(kind: &str) -> String {
     kind.split(['\'', ':']).next().unwrap().to_string()
@@ -51,6 +51,19 @@ pub struct Variant22 {
     pub sg_changed: bool,
     /// set in the final pass if rustc rejected this (and only this) program
     pub rustc_error: Option<String>,
+    /// `Some(kind)`: the only insertion sits on exactly ONE input of the binary operator of that kind (the other
+    /// input stays as in the base program)
+    #[serde(default)]
+    pub one_sided: Option<String>,
+}
+
+/// A binary operator of the base program with the observation points on its two inputs.
+#[derive(Clone, Debug, Serialize, Deserialize)]
+pub struct BinOp22 {
+    pub name: String,
+    pub kind: String,
+    pub site_a: u16,
+    pub site_b: u16,
 }
 
 #[derive(Clone, Debug, Serialize, Deserialize)]
@@ -62,6 +75,9 @@ pub struct Group22 {
     pub kinds: BTreeMap<String, String>,
     /// variants[0] is the base program as generated
     pub variants: Vec<Variant22>,
+    /// binary operators (join family, anti_join, difference, cross_singleton, zip); bins[0] is the forced one
+    #[serde(default)]
+    pub bins: Vec<BinOp22>,
 }
 
 // ---------------------------------------------------------------------------------------------
@@ -87,7 +103,15 @@ struct Gen<'a> {
     nodes: Vec<LNode>,
     usage: &'a mut BTreeMap<String, u64>,
     next_site: u16,
+    /// persistence arguments to use for the next binary operator (coverage of every combination)
+    force_pers: Option<&'static str>,
+    /// (logical index of the operator, site of the tap on input a, on input b)
+    bins: Vec<(usize, u16, u16)>,
 }
+
+pub const BIN_FAMILIES: &[&str] = &["anti_join", "difference", "join", "cross_singleton", "zip"];
+const PERS2: &[&str] = &["::<'tick, 'static>", "::<'static, 'tick>", "", "::<'static, 'static>", "::<'tick>", "::<'static>"];
+const PERS1: &[&str] = &["", "::<'static>", "::<'tick>"];
 
 fn pers(rng: &mut Rng) -> &'static str {
     *rng.choose(&["", "::<'tick>", "::<'static>"])
@@ -121,6 +145,23 @@ impl<'a> Gen<'a> {
             is_sink: false,
         });
         self.nodes.len() - 1
+    }
+    /// An observation point on an input of a binary operator (inline: `inspect` is a 1-in-1-out operator, it
+    /// neither forces a handoff nor a colour).
+    fn in_tap(&mut self, a: usize) -> (usize, u16) {
+        let site = self.next_site;
+        self.next_site += 1;
+        let (o, s) = (self.nodes[a].ordered, self.nodes[a].single);
+        let i = self.push("intap", &format!("inspect(|x: &It| rec_t{site}.item({site}, *x))"), vec![(a, None)], IT, o, s);
+        self.nodes[i].site = Some(site);
+        self.nodes[i].open = false;
+        (i, site)
+    }
+    fn pers2(&mut self) -> &'static str {
+        match self.force_pers.take() {
+            Some(p) => p,
+            None => pers2(self.rng),
+        }
     }
     fn fanout(&self, i: usize) -> usize {
         self.nodes.iter().map(|n| n.ins.iter().filter(|(s, _)| *s == i).count()).sum()
@@ -213,22 +254,28 @@ impl<'a> Gen<'a> {
             "join" => {
                 let Some(a) = self.pick(false, false, &[]) else { return false };
                 let Some(b) = self.pick(false, false, &[a]) else { return false };
-                let p = pers2(self.rng);
+                let p = self.pers2();
+                let ((a, sa), (b, sb)) = (self.in_tap(a), self.in_tap(b));
                 let j = self.push(&kind_of("join", p), &format!("join{p}()"), vec![(a, Some("0")), (b, Some("1"))], "(i64, (i64, i64))", false, false);
+                self.bins.push((j, sa, sb));
                 self.push("map", &format!("map(|(k, (a, b)): (i64, (i64, i64))| (k, (a * 3 + b).rem_euclid({m}M)))"), vec![(j, None)], IT, false, false);
             }
             "anti_join" => {
                 let Some(a) = self.pick(false, false, &[]) else { return false };
                 let Some(b) = self.pick(false, false, &[a]) else { return false };
+                let p = self.pers2();
+                let ((a, sa), (b, sb)) = (self.in_tap(a), self.in_tap(b));
                 let k = self.push("map", "map(|x: It| x.0)", vec![(b, None)], "i64", false, false);
-                let p = pers2(self.rng);
-                self.push(&kind_of("anti_join", p), &format!("anti_join{p}()"), vec![(a, Some("pos")), (k, Some("neg"))], IT, false, false);
+                let j = self.push(&kind_of("anti_join", p), &format!("anti_join{p}()"), vec![(a, Some("pos")), (k, Some("neg"))], IT, false, false);
+                self.bins.push((j, sa, sb));
             }
             "difference" => {
                 let Some(a) = self.pick(false, false, &[]) else { return false };
                 let Some(b) = self.pick(false, false, &[a]) else { return false };
-                let p = pers2(self.rng);
-                self.push(&kind_of("difference", p), &format!("difference{p}()"), vec![(a, Some("pos")), (b, Some("neg"))], IT, false, false);
+                let p = self.pers2();
+                let ((a, sa), (b, sb)) = (self.in_tap(a), self.in_tap(b));
+                let j = self.push(&kind_of("difference", p), &format!("difference{p}()"), vec![(a, Some("pos")), (b, Some("neg"))], IT, false, false);
+                self.bins.push((j, sa, sb));
             }
             "fold" | "fold_no_replay" => {
                 let Some(a) = self.pick(false, false, &[]) else { return false };
@@ -308,7 +355,13 @@ impl<'a> Gen<'a> {
                         self.push(&kind_of("fold", p), &format!("fold{p}(|| (0i64, 0i64), |a: &mut It, x: It| {m}acc_comm({id}, a, x))"), vec![(b, None)], IT, true, true)
                     }
                 };
-                let c = self.push("cross_singleton", "cross_singleton()", vec![(a, Some("input")), (s, Some("single"))], "(It, It)", false, false);
+                let p = match self.force_pers.take() {
+                    Some(p) => p,
+                    None => *self.rng.choose(PERS1),
+                };
+                let ((a, sa), (s, sb)) = (self.in_tap(a), self.in_tap(s));
+                let c = self.push(&kind_of("cross_singleton", p), &format!("cross_singleton{p}()"), vec![(a, Some("input")), (s, Some("single"))], "(It, It)", false, false);
+                self.bins.push((c, sa, sb));
                 self.push(
                     "map",
                     &format!("map(|(x, s): (It, It)| ((x.0 + s.0).rem_euclid({m}M), (x.1 + s.1).rem_euclid({m}M)))"),
@@ -336,7 +389,10 @@ impl<'a> Gen<'a> {
             "zip" => {
                 let Some(a) = self.pick(true, false, &[]) else { return false };
                 let Some(b) = self.pick(true, false, &[a]) else { return false };
-                let z = self.push("zip", "zip()", vec![(a, Some("0")), (b, Some("1"))], "(It, It)", true, false);
+                let p = self.pers2();
+                let ((a, sa), (b, sb)) = (self.in_tap(a), self.in_tap(b));
+                let z = self.push(&kind_of("zip", p), &format!("zip{p}()"), vec![(a, Some("0")), (b, Some("1"))], "(It, It)", true, false);
+                self.bins.push((z, sa, sb));
                 self.push("map", &format!("map(|(x, y): (It, It)| ((x.0 + y.1).rem_euclid({m}M), (x.1 + y.0).rem_euclid({m}M)))"), vec![(z, None)], IT, true, false);
             }
             "scan" => {
@@ -392,11 +448,23 @@ impl<'a> Gen<'a> {
 }
 
 /// Build one base program. Returns the materialised program (explicit `tee()`s and sinks) and its sinks.
-fn gen_base(rng: &mut Rng, usage: &mut BTreeMap<String, u64>) -> (Prog, Vec<Sink22>, BTreeMap<String, String>) {
-    let n_src = 1 + rng.below(3);
-    let mut g = Gen { rng, nodes: Vec::new(), usage, next_site: 0 };
+fn gen_base(rng: &mut Rng, usage: &mut BTreeMap<String, u64>, gid: usize) -> (Prog, Vec<Sink22>, BTreeMap<String, String>, Vec<BinOp22>) {
+    let n_src = 2 + rng.below(2);
+    let mut g = Gen { rng, nodes: Vec::new(), usage, next_site: 0, force_pers: None, bins: Vec::new() };
     for i in 0..n_src {
         g.push("source_stream", &format!("source_stream(rx{i})"), vec![], IT, true, false);
+    }
+    // coverage: every program starts with a binary operator fed inline from the sources; the family and the
+    // persistence combination (incl. the mixed 'tick/'static ones) cycle with the group number
+    {
+        let fam = BIN_FAMILIES[gid % BIN_FAMILIES.len()];
+        // the four semantically distinct combinations first (the mixed ones twice per 7 groups of a family)
+        let combos = if fam == "cross_singleton" { PERS1 } else { &PERS2[..4] };
+        g.force_pers = Some(combos[(gid / BIN_FAMILIES.len()) % combos.len()]);
+        if g.step(fam) {
+            *g.usage.entry(fam.to_string()).or_insert(0) += 1;
+        }
+        g.force_pers = None;
     }
     let steps = 3 + g.rng.below(6);
     let mut done = 0;
@@ -404,6 +472,11 @@ fn gen_base(rng: &mut Rng, usage: &mut BTreeMap<String, u64>) -> (Prog, Vec<Sink
     while done < steps && tries < 40 {
         tries += 1;
         let op = g.choose_op();
+        // `multiset_delta` does not compile on the push side (known finding): keep it to a quarter of the groups so
+        // that groups in which no variant compiles stay rare
+        if op == "multiset_delta" && gid % 4 != 3 {
+            continue;
+        }
         if g.step(op) {
             *g.usage.entry(op.to_string()).or_insert(0) += 1;
             done += 1;
@@ -425,6 +498,7 @@ fn gen_base(rng: &mut Rng, usage: &mut BTreeMap<String, u64>) -> (Prog, Vec<Sink
     // part of every variant, so they do not affect semantic identity; they let a difference be attributed to the
     // operator whose output differs first), explicit tee() where fan-out > 1
     let mut next_site = g.next_site;
+    let bins_l = g.bins.clone();
     let ln = g.nodes;
     let mut prog = Prog::new(n_src);
     let mut idx: Vec<usize> = Vec::new(); // logical -> prog index of the node to read from
@@ -492,7 +566,8 @@ fn gen_base(rng: &mut Rng, usage: &mut BTreeMap<String, u64>) -> (Prog, Vec<Sink
         sinks.push(Sink22 { site, name: prog.nodes[x].name.clone(), ordered, between, preds, is_sink });
     }
     sinks.sort_by_key(|s| s.site);
-    (prog, sinks, kinds)
+    let bins = bins_l.iter().map(|&(i, sa, sb)| BinOp22 { name: prog.nodes[own[i]].name.clone(), kind: prog.nodes[own[i]].kind.clone(), site_a: sa, site_b: sb }).collect();
+    (prog, sinks, kinds, bins)
 }
 
 // ---------------------------------------------------------------------------------------------
@@ -579,7 +654,7 @@ fn make_variant(base: &Prog, rng: &mut Rng) -> (Prog, Vec<String>, Option<u64>) 
 /// number of operators whose pull/push colour flips and to include subgraph-count changes.
 pub fn gen_group(gid: usize, rng: &mut Rng, usage: &mut BTreeMap<String, u64>, rejects: &mut Vec<String>, fns: &mut BTreeMap<String, String>) -> Group22 {
     loop {
-        let (base, sinks, kinds) = gen_base(rng, usage);
+        let (base, sinks, kinds, bins) = gen_base(rng, usage, gid);
         let text0 = base.emit(None);
         let a0 = analyze(&text0);
         if !a0.ok {
@@ -600,17 +675,17 @@ pub fn gen_group(gid: usize, rng: &mut Rng, usage: &mut BTreeMap<String, u64>, r
             flips: vec![],
             sg_changed: false,
             rustc_error: None,
+            one_sided: None,
         }];
         let mut progs = vec![base.clone()];
         let k = 3 + rng.below(4);
         let mut cands: Vec<(Prog, Variant22)> = Vec::new();
         let mut seen_texts: BTreeSet<String> = BTreeSet::new();
         seen_texts.insert(text0);
-        for _ in 0..14 {
-            let (p, inserts, order) = make_variant(&base, rng);
+        let eval = |p: Prog, inserts: Vec<String>, order: Option<u64>, one_sided: Option<String>, seen_texts: &mut BTreeSet<String>| -> Option<(Prog, Variant22)> {
             let text = p.emit(order);
             if !seen_texts.insert(text.clone()) {
-                continue;
+                return None;
             }
             let a = analyze(&text);
             let mut flips = Vec::new();
@@ -624,11 +699,63 @@ pub fn gen_group(gid: usize, rng: &mut Rng, usage: &mut BTreeMap<String, u64>, r
                 }
             }
             let sg_changed = a.ok && a.n_subgraphs != a0.n_subgraphs;
-            cands.push((p, Variant22 { vid: 0, prog_id: String::new(), inserts, order_seed: order, text, analysis: a, flips, sg_changed, rustc_error: None }));
+            Some((p, Variant22 { vid: 0, prog_id: String::new(), inserts, order_seed: order, text, analysis: a, flips, sg_changed, rustc_error: None, one_sided }))
+        };
+        // one-sided variants: a handoff / two-output tee on exactly ONE input of a binary operator, the other input
+        // as in the base program. Both sides of the forced operator are always taken; the other operators' go into
+        // the candidate pool.
+        let mut forced: Vec<(Prog, Variant22)> = Vec::new();
+        for (bi, b) in bins.iter().enumerate() {
+            let Some(j) = base.nodes.iter().position(|n| n.name == b.name) else { continue };
+            // slot sets: input 0 only, input 1 only, both inputs (an input that is not pulled is only *delayed* when it
+            // hangs inline on a source but *lost* when it sits in a handoff, so "both" matters as well)
+            let n_in = base.nodes[j].ins.len().min(2);
+            let mut slot_sets: Vec<Vec<usize>> = (0..n_in).map(|s| vec![s]).collect();
+            if n_in == 2 {
+                slot_sets.push(vec![0, 1]);
+            }
+            for slots in slot_sets {
+                let mut p = base.clone();
+                let mut ins = Vec::new();
+                for (t, &slot) in slots.iter().enumerate() {
+                    let kind = *rng.choose(&["handoff", "tee_null", "handoff", "handoff_identity", "tee_drop"]);
+                    // the edge into the operator (for anti_join's neg side: into the key-extracting map in front of it)
+                    let (mut dst, mut sl) = (j, slot);
+                    let src = base.nodes[j].ins[slot].0;
+                    if base.nodes[src].ty != IT && base.nodes[src].ins.len() == 1 {
+                        dst = src;
+                        sl = 0;
+                    }
+                    let src_name = base.nodes[base.nodes[dst].ins[sl].0].name.clone();
+                    apply_insert(&mut p, dst, sl, kind, t);
+                    ins.push(format!("{kind}@{}->{}", src_name, base.nodes[dst].name));
+                }
+                let order = if rng.chance(1, 2) { Some(rng.next_u64()) } else { None };
+                let tag = if slots.len() == 2 { format!("{}+both", base_kind(&b.kind)) } else { base_kind(&b.kind) };
+                if let Some(c) = eval(p, ins, order, Some(tag), &mut seen_texts) {
+                    if bi == 0 {
+                        forced.push(c);
+                    } else {
+                        cands.push(c);
+                    }
+                }
+            }
         }
+        for _ in 0..12 {
+            let (p, inserts, order) = make_variant(&base, rng);
+            if let Some(c) = eval(p, inserts, order, None, &mut seen_texts) {
+                cands.push(c);
+            }
+        }
+        let k = k.max(forced.len() + 1).min(6);
         // greedy choice: most new flipped operators first; front-end rejections are always kept (observation)
         let mut covered: BTreeSet<String> = BTreeSet::new();
-        let mut picked: Vec<(Prog, Variant22)> = Vec::new();
+        let mut picked: Vec<(Prog, Variant22)> = forced;
+        for c in &picked {
+            for f in &c.1.flips {
+                covered.insert(f.0.clone());
+            }
+        }
         while picked.len() < k && !cands.is_empty() {
             let score = |v: &Variant22| -> usize {
                 if !v.analysis.ok {
@@ -654,6 +781,6 @@ pub fn gen_group(gid: usize, rng: &mut Rng, usage: &mut BTreeMap<String, u64>, r
         for (v, p) in variants.iter().zip(progs.iter()) {
             fns.insert(v.prog_id.clone(), p.emit_fn(&v.prog_id, &v.text));
         }
-        return Group22 { gid, n_src: base.n_src, sinks, kinds, variants };
+        return Group22 { gid, n_src: base.n_src, sinks, kinds, variants, bins };
     }
 }
